@@ -59,6 +59,8 @@ def family_lib():
         ("consd", consumer("d", [("v", ("inject", "pa", "f", "D"))])),
         ("cons2", consumer("e", [("v", ("inject", "pa", "f", "D")), ("w", ("inject", "pb", "f", "DB"))])),
         ("consg", consumer("g", [("v", ("inject", "pa", "g", "D"))])),
+        ("conse", consumer("z", [("v", ("inject", "pa", "f", ""))])),                                        # falsy default ""
+        ("cons2e", consumer("y", [("v", ("inject", "pa", "f", "")), ("w", ("inject", "pb", "f", ""))])),
         # consumers that read several fields of one provider BY NAME (the separators keep the values apart in the output)
         ("consfg", {"tpl": [T("(fg="), ("out", ("var", "v")), T("/"), ("out", ("var", "w")), T(")")],
                     "data": [("v", ("inject", "pa", "f", "D")), ("w", ("inject", "pa", "g", "DG"))]}),
@@ -105,12 +107,12 @@ def wrap(w, body, only=False):
 def family_bodies():
     """(label, page body) - the part placed inside 0..2 page-level providers"""
     out = []
-    for c in ("cons", "consd", "cons2"):
+    for c in ("cons", "consd", "cons2", "conse", "cons2e"):
         for n in (1, 2, 3):
             out.append(("sib%d-%s" % (n, c), [x for _ in range(n) for x in (comp(c), T("|"))]))
     out.append(("field-missing", [comp("consg"), comp("consd")]))
     for w in WRAPPERS:
-        for c in ("cons", "cons2"):
+        for c in ("cons", "cons2", "cons2e"):
             out.append(("%s[%s]" % (w, c), [wrap(w, [comp(c)])]))
         out.append(("%s[prov[cons]]" % w, [wrap(w, [T("!"), provide("pa", ("str", "fill"), [comp("cons")]), comp("consd")])]))
         out.append(("%s-only[consd]" % w, [wrap(w, [T("!"), comp("consd")], only=True)]))
@@ -179,6 +181,26 @@ SPREAD_CASES = [
 SPREAD_CTX = {"d_fg": {"f": "sA", "g": "sB"}, "d_gf": {"g": "tB", "f": "tA"}, "d_hgf": {"h": "u3", "g": "u2", "f": "u1"}, "d_hg": {"h": "w3", "g": "w2"}}
 
 
+FALSY = [("empty-str", ""), ("zero", 0), ("zero-float", 0.0), ("false", False), ("empty-tuple", ()), ("empty-list", []), ("empty-dict", {}),
+         ("truthy", "T"), ("one", 1)]
+
+
+def falsy_programs():
+    """inject(key, default) with falsy defaults of several types (values outside the calculus: recorded-structure oracle and trace
+    model only): outside every provider, inside a provider of ANOTHER key, inside a provider of the key (hit), and inject(key)
+    without a default next to them"""
+    lib = [("nodef", {"tpl": [T("(n="), ("out", ("var", "v")), T(")")], "data": [("v", ("inject", "pa", "f", None))]})]
+    for name, val in FALSY:
+        lib.append(("df-" + name, {"tpl": [T("(%s=" % name), ("out", ("var", "v")), T(")")], "data": [("v", ("inject", "pa", "f", val))]}))
+    allc = [comp("df-" + name) for name, _ in FALSY]
+    src_pages = [("outside", allc), ("other-key", [provide("pb", ("str", "ob"), allc)]), ("hit", [provide("pa", ("str", "A"), allc + [comp("nodef")])]),
+                 ("other-key+nodef", [provide("pb", ("str", "ob"), allc[:2] + [comp("nodef")])])]
+    for mode in ("isolated", "django"):
+        for label, page in src_pages:
+            yield ("falsy/%s/%s" % (mode, label), {"lib": lib, "page": [T("PAGE:")] + page + [T(":END")], "ctx": [], "mode": mode, "nerr": 1,
+                                                   "nocalc": True, "expect": "err" if "nodef" in label else "ok"})
+
+
 def family_programs():
     lib = FAMLIB
     for mode in ("isolated", "django"):
@@ -204,7 +226,7 @@ def shape_programs(chk, n, mode):
             c = r.random()
             if depth >= 4 or c < 0.33:
                 strict_ok = "pa" in keys or r.random() < 0.08
-                cands = ["cons", "consd", "cons2"] if strict_ok else ["consd", "cons2"]
+                cands = ["cons", "consd", "cons2", "conse", "cons2e"] if strict_ok else ["consd", "cons2", "conse", "cons2e"]
                 if "g" in pf:
                     cands += ["consfg", "consfg"]
                 if "h" in pf:
@@ -247,7 +269,11 @@ def gen_programs(chk, n, mode):
         small = i < n // 3
         g = G.Gen(r, mode, ncomp=r.randint(1, 2) if small else r.randint(2, 4), collide=0.0, provide=r.choice([0.35, 0.5, 0.7]),
                   errors=0.02, depth=2 if small else 3, only=0.12 if mode == "isolated" else 0.0, loops=0.3)
-        yield ("gen-%s-%d" % (mode, i), g.program())
+        prog = g.program()
+        # a third of the inject defaults become the falsy string ""
+        prog["lib"] = [(n, dict(cd, data=[(x, (d[0], d[1], d[2], "") if d[0] == "inject" and d[3] is not None and r.random() < 0.33 else d)
+                                         for x, d in cd["data"]])) for n, cd in prog["lib"]]
+        yield ("gen-%s-%d" % (mode, i), prog)
 
 
 # ----------------------------------------------------------------------------------------------------
@@ -313,8 +339,10 @@ def check_recorded_nearest(nodes, path=()):
             key = r[0]
             near = next((p for p in reversed(path) if p.kind == "prov" and p.key == key), None)
             if near is None:
-                if r[1] not in ("default", "KeyError"):
-                    bad.append((n.id, key, "no enclosing provider: default or KeyError", r[1:]))
+                # outside every provider of the key: the given default (that very object), or KeyError when none was given
+                ok = (r[1] == "default" and r[3]) or (r[1] == "KeyError" and not r[3])
+                if not ok:
+                    bad.append((n.id, key, "no enclosing provider of this key: the given default, or KeyError if none was given", r[1:]))
             else:
                 if r[1] != "hit" or r[2] != near.payload or r[3] != near.id:
                     bad.append((n.id, key, {"provider": near.id, "payload": near.payload}, r[1:]))
@@ -360,12 +388,42 @@ def rehook_attrs(cname, cd):
     return {"on_render_before": on_render_before}
 
 
+def make_gcd(data):
+    """get_context_data of a generated component. Unlike core_run's, inject() is handed the program's default ITSELF
+    (also a falsy one: "", 0, False, (), [], {}), as user code would"""
+    def get_context_data(self, **kwargs):
+        out = {}
+        for x, d in data:
+            if d[0] == "kw":
+                out[x] = kwargs.get(d[1], "")
+            elif d[0] == "str":
+                out[x] = d[1]
+            else:
+                _, key, field, dflt = d
+                if dflt is None:
+                    out[x] = getattr(self.inject(key), field)
+                else:
+                    r = self.inject(key, dflt)
+                    out[x] = getattr(r, field) if hasattr(r, "_fields") else r
+        return out
+    return get_context_data
+
+
+def class_attrs(rehook):
+    def attrs(cname, cd):
+        a = {"get_context_data": make_gcd(cd["data"])}
+        if rehook:
+            a.update(rehook_attrs(cname, cd))
+        return a
+    return attrs
+
+
 def render_page(prog, dynamic=False, rehook=False):
     """prog["raw"] = (template source, context dict): a page outside the calculus (dict spreads), rendered as written"""
     import djsetup
     from django.template import Context, Template
     with djsetup.components_settings(context_behavior=prog["mode"]):
-        classes, cleanup = R.build(prog, dynamic, extra_attrs=rehook_attrs if rehook else None)
+        classes, cleanup = R.build(prog, dynamic, extra_attrs=class_attrs(rehook))
         try:
             if prog.get("raw"):
                 src, ctx = prog["raw"][0], {k: dict(v) for k, v in prog["raw"][1].items()}
@@ -401,10 +459,13 @@ def run_one(cx, label, prog, dynamic=False, keep_tables=False, count=True, rehoo
                  "inject() did not return the data of the nearest enclosing {%% provide %%} of the rendered structure: %r" % (bad[:3],),
                  dict(replay, mismatches=bad[:5], structure=[n.to_obj() for n in roots]))
     # (O2) the whole structure and every inject() value vs the oracle on the program tree
-    raw = bool(prog.get("raw"))
+    raw = bool(prog.get("raw") or prog.get("nocalc"))
     exp = U.PyRef(prog, rehook=rehook).run() if not raw else None
-    if raw and o[0] == "err":
+    if prog.get("raw") and o[0] == "err":
         chk.fail("c05-spread-provider-raised", "a page whose provide tags take their keyword arguments from a dict spread raised %s" % o[1], replay)
+    if prog.get("nocalc") and (o[0], o[1] if o[0] == "err" else "") != (("err", "EKey") if prog["expect"] == "err" else ("ok", "")):
+        chk.fail("c05-default-or-keyerror", "inject(key, default) outside every provider of the key: expected %s, got %r" % (
+            "KeyError from the component without a default" if prog["expect"] == "err" else "every given default (falsy ones too)", o[:2]), replay)
     if not dynamic and not raw:
         if o[0] == "ok" and exp[0] == "ok":
             got, want = U.canon_recorded(roots), U.canon_expected(exp[2])
@@ -600,6 +661,8 @@ def run(tier, seed):
             for label, src in (SPREAD_CASES if rep == 0 else SPREAD_CASES[::-1]):
                 prog = {"lib": FAMLIB, "page": [T(src)], "ctx": [], "mode": mode, "nerr": 0, "raw": (src, SPREAD_CTX)}
                 run_one(cx, "%s/%s#%d" % (label, mode, rep), prog)
+    for label, prog in falsy_programs():
+        run_one(cx, label, prog)
     n = 1800 if tier == "thorough" else 260
     for mode in ("isolated", "django"):
         for i, (label, prog) in enumerate(gen_programs(chk, n, mode)):
@@ -637,10 +700,11 @@ def run(tier, seed):
     ]
     return chk.finish(
         rule="corpus; exhaustive family: %d small programs = {isolated, django} x 5 page-level provider wrappings (none / pa / pa shadowing pa / pb / pb inside pa) x %d bodies "
-             "(1-3 sibling consumers of 3 kinds, 7 wrapper components [provider around the slot, consumer in the slot default, slot in a loop, pass-through slot in a nested "
+             "(1-3 sibling consumers of 5 kinds incl. inject defaults \"\" (falsy), 7 wrapper components [provider around the slot, consumer in the slot default, slot in a loop, pass-through slot in a nested "
              "fill] with consumers in implicit / named fills, provider inside the fill, `only`, siblings after the wrapper, wrapper in wrapper, loops, if/with); then (twice) 18 programs whose providers pass the SAME SET of 2-3 keyword names in DIFFERENT written orders (siblings, "
              "shadowing inner provider, component template vs page, loop iterations) with consumers reading every field by name, and 8 pages whose provide tags take their keyword "
-             "arguments from dict spreads of different insertion order (outside the calculus: recorded-structure oracle and trace model only); then %d seeded "
+             "arguments from dict spreads of different insertion order (outside the calculus: recorded-structure oracle and trace model only); 8 pages with inject defaults "
+             "\"\" 0 0.0 False () [] {} (outside every provider / inside a provider of another key / of the key; outside the calculus); then %d seeded (a third of the inject defaults \"\") "
              "genprog programs per context behaviour with provide blocks at page level, in component templates, around slots, inside fills and loops (every 3rd also through the "
              "dynamic component); then %d random compositions per context behaviour of the family's blocks (nesting depth <= 5, several consumers per provider, provide tags with 1-3 keyword arguments in random order, loops, `only` in "
              "isolated mode); then %d histories (+ 10/30 histories drawn from the permuted-order programs only) of 2-5 renders in one process. Non-trivial = a successful render in which one provider is injected from by >= 2 component "
